@@ -1,5 +1,6 @@
 import PicoProofs.EndToEnd
 import PicoProofs.Tie
+import PicoModel.Sample
 /-
 C08 — Field presence survives encoding and decoding.
 
@@ -45,5 +46,10 @@ theorem C08_empty_submessage_kept (f : Nat) : Enc.message (f : Int) [] true = Sp
 length-delimited record -/
 theorem C08_repeated_message_elements (f : Nat) (p : Bytes) : Enc.alwaysMessage (f : Int) p = Spec.lenField f p :=
   alwaysMessage_eq f p
+
+/-- non-vacuity: the premises of the presence round trip hold for the sample schema and value (set
+pointer to zero, selected oneof member, empty sub-message) -/
+example : S1.ok := ⟨by decide +kernel, SpecRt.zeroMsgOk_of_B S1 (by decide +kernel)⟩
+example : wtMsg S1 true 0 v1 = true := by decide +kernel
 
 end Pico.Props
